@@ -25,7 +25,7 @@ type rangeLoop struct {
 	// Counting: a `for i := 0; i < len(x.f); i++` loop; any load of the same field of the same object is the list
 	Counting bool
 	Start    int64 // first index of a counting loop (0 for the loops rangeLoops returns)
-	stable   int // 0 unknown, 1 the walked list field is not stored to inside the loop, -1 it is
+	stable   int   // 0 unknown, 1 the walked list field is not stored to inside the loop, -1 it is
 }
 
 // sameList: x is the list the loop walks.
